@@ -94,13 +94,16 @@ def r1(ctx):
         ctx.missing(rule, 'Transform::make_args / new_cached')
         return
     selecting = set()
-    for bi, st in aggregates(ma, 'transform::Output'):
-        for d in ma.dominators()[bi]:
-            t = ma.blocks[d]['term']
-            if t['k'] == 'switch':
-                df = direct_field(ma, t['op'])
-                if df and not all(ma.dominates(x, bi) for x in dict.fromkeys(t['tgts']) if ma.blocks[x]['term']['k'] != 'unreach'):
-                    selecting.add(df[0])
+    # ... and the fields that decide what the command is GIVEN as $IN (the file itself or a copy with another name, directory and time stamps)
+    for mb in [ma] + [lib.body(cp) for cp in lib.closures_of(ma.path)]:
+        for adt in ('transform::Output', 'transform::Input'):
+            for bi, st in aggregates(mb, adt):
+                for d in mb.dominators()[bi]:
+                    t = mb.blocks[d]['term']
+                    if t['k'] == 'switch':
+                        df = direct_field(mb, t['op'])
+                        if df and df[0] not in ('0', '1') and not all(mb.dominates(x, bi) for x in dict.fromkeys(t['tgts']) if mb.blocks[x]['term']['k'] != 'unreach'):
+                            selecting.add(df[0])
     ctx.floor(rule, 'Transform fields that select the hashed stream (make_args)', len(selecting), 1, ma.where())
     od = nc.calls(r'HashCache::open_default$')
     covered = set()
@@ -129,7 +132,7 @@ def r1(ctx):
                                 covered |= {e[2] for e in pp[1] if isinstance(e, list) and e[0] == 'F'}
     missing = sorted(selecting - covered)
     ctx.check(not missing, rule, nc.path + '|identity-covers-mode', (od[0].where() if od else nc.where()), 'the cache identity depends on %s' % sorted(selecting | {'command_str'}),
-              'Transform.%s decides which stream is hashed (make_args builds a different Output under it) but is not part of the cache identity (tree id = algorithm + command string): a run with '
+              'Transform.%s decides which stream is hashed or what the command is given as $IN (make_args builds a different Output / Input under it) but is not part of the cache identity (tree id = algorithm + command string): a run with '
               'the flag is served the hashes cached by a run without it - `--cache --transform "sed -i s/x/y/ $IN"` followed by the same with --in-place reports three different files as one group' % ', '.join(missing))
 
 
